@@ -306,6 +306,33 @@ theorem rejected_unchanged {s : Store} (h : BWF s) (op : Op) (hr : (step true s 
 example : (step true (run true (init 3) [.children 0 (some [some 1, some 2]) .none])
     (.children 1 (some [some 2, some 0]) .none)).2 = .rej := by decide
 
+/-- the store used for the non-vacuity examples: `0 → [1, 2]`, `1 → [3, None]`, `4` a root with
+children `[5, None]`; built by the operations themselves, hence `BWF` -/
+def demo : Store := run true (init 6)
+  [.children 0 (some [some 1, some 2]) .none, .left 1 (some 3) .none, .parent 5 (some 4) .none]
+
+example : BWF demo := bwf_reachable 6 _
+
+/-- every rejection cause of C02 occurs on `demo` (so `rejected_unchanged`, `setParent_rej_id`,
+`setChildren_rej_id` are not vacuous), the failing assignments steal children from two donors
+(`2` from `0`, `5` from `4`), re-list a current child, or name two orphans -/
+example :
+    -- wrong type, self, descendant, full parent, pre-hook, post-hook on the parent setter
+    (setParent true .none demo 3 (some 7)).2 = .rej ∧ (setParent true .none demo 1 (some 1)).2 = .rej ∧
+    (setParent true .none demo 0 (some 3)).2 = .rej ∧ (setParent true .none demo 5 (some 0)).2 = .rej ∧
+    (setParent true .pre demo 3 (some 4)).2 = .rej ∧ (setParent true .post demo 3 (some 4)).2 = .rej ∧
+    (setParent true .post demo 2 (some 0)).2 = .rej ∧
+    -- wrong length, wrong type, self, ancestor, repeated member, pre-hook, post-hook on the children setter
+    (setChildren true .none demo 3 [some 2]).2 = .rej ∧ (setChildren true .none demo 3 [some 9, none]).2 = .rej ∧
+    (setChildren true .none demo 3 [some 3, none]).2 = .rej ∧ (setChildren true .none demo 3 [some 0, none]).2 = .rej ∧
+    (setChildren true .none demo 3 [some 2, some 2]).2 = .rej ∧
+    (setChildren true .pre demo 3 [some 2, some 5]).2 = .rej ∧ (setChildren true .post demo 3 [some 2, some 5]).2 = .rej ∧
+    (setChildren true .post demo 0 [some 2, some 1]).2 = .rej ∧ (setChildren true .post demo 1 [some 5, some 3]).2 = .rej ∧
+    (setLeft true .none demo 0 (some 2)).2 = .rej ∧ (setRight true .post demo 4 (some 2)).2 = .rej ∧
+    -- and the same assignments are accepted without the fault
+    (setChildren true .none demo 3 [some 2, some 5]).2 = .ok ∧ (setParent true .none demo 3 (some 4)).2 = .ok := by
+  decide
+
 /-! ## negative regression: the pinned pre-fix deleter (D2) -/
 
 /-- with `list.remove` instead of emptying the slot (`delChildrenPre`, the code before commit
